@@ -518,12 +518,15 @@ CycleCase(n, sd) ==
       rule(i) == Pn(i) \o "(X) :- " \o (IF i = neg THEN Pick(Nx(Nx(sd)), <<"not ", "not not ">>) ELSE "") \o Pn(i + 1) \o "(X), q(X)."
       RECURSIVE all(_)
       all(i) == IF i = len THEN "" ELSE rule(i) \o " " \o all(i + 1)
-  IN [id |-> "cyc" \o ToString(n), prog |-> all(0)]
+      \* a predicate outside the cycle that depends on it, written BEFORE the cycle (the cycle is first entered from outside)
+      outside == IF Val(Mix(sd, 7)) % 2 = 0 THEN "goal(X) :- " \o Pn(Val(Mix(sd, 8)) % len) \o "(X), q(X). " ELSE ""
+      extra == IF Val(Mix(sd, 9)) % 3 = 0 THEN Pn(1) \o "(X) :- q(X). " ELSE ""      \* a second, non-recursive rule for a cycle predicate
+  IN [id |-> "cyc" \o ToString(n), prog |-> outside \o all(0) \o extra]
 
 \* tasks that violate (or only seem to violate) exactly one applicability condition (C11)
 BadCase(n, sd) ==
   LET b == ExtCase(n, sd)
-      k == n % 14
+      k == n % 17
       isSpec == "spec" \in DOMAIN b
       AddR(x) == [b EXCEPT !.right = @ \o " " \o x]
       AddU(x) == [b EXCEPT !.ug = @ \o " " \o x]
@@ -543,6 +546,10 @@ BadCase(n, sd) ==
              [] k = 12 -> AddR("aux(X) :- q(X), bux(X). bux(X) :- q(X), not not aux(X).")
              [] k = 13 -> IF isSpec THEN [b EXCEPT !.spec = @ \o " assumption: forall X (q(X) -> not aux(X))."]
                           ELSE [b EXCEPT !.left = @ \o " q(X) :- p(X), X > 100."]
+             [] k = 14 -> AddU("assumption: forall X Y (q(X, Y) -> q(X)).")          \* q/2 is not the input predicate q/1
+             [] k = 15 -> IF isSpec THEN [b EXCEPT !.spec = @ \o " assumption: forall X (q(X, X) -> q(X))."]
+                          ELSE AddU("assumption: forall X (q -> q(X)).")                \* q/0
+             [] k = 16 -> AddR("p(X, Y) :- q(X), q(Y), not p(X).")                     \* p/2 next to the output p/1: a private predicate, fine
   IN [c EXCEPT !.id = "bad" \o ToString(n) \o "k" \o ToString(k)]
 
 \* ---------------------------------------------------------------- adversarial identifiers (C09, C12)
